@@ -975,3 +975,101 @@ Proof.
   - rewrite (getopt_is_navigation_ok c _ Hc). reflexivity.
   - rewrite (getsec_is_navigation_ok w c _ Hc). reflexivity.
 Qed.
+
+(* ------------------------------------------------------------------ *)
+(* stray separator at the END of a path                               *)
+(* ------------------------------------------------------------------ *)
+Lemma strcspn_snoc s b f : f b = true -> strcspn (s ++ [b]) f = strcspn s f.
+Proof. intros H. induction s as [|c s IH]; cbn [app strcspn]; [rewrite H; reflexivity|]. destruct (f c); [reflexivity|]. rewrite IH. reflexivity. Qed.
+
+Lemma firstn_snoc_le {A} n (s : list A) b : n <= length s -> firstn n (s ++ [b]) = firstn n s.
+Proof. intros H. rewrite firstn_app. replace (n - length s) with 0 by lia. cbn. apply app_nil_r. Qed.
+
+Lemma skipn_snoc_le {A} n (s : list A) b : n <= length s -> skipn n (s ++ [b]) = skipn n s ++ [b].
+Proof. intros H. rewrite skipn_app. replace (n - length s) with 0 by lia. reflexivity. Qed.
+
+Lemma span_snoc s b f : f b = true -> span f (s ++ [b]) = (fst (span f s), snd (span f s) ++ [b]).
+Proof.
+  intros H. unfold span. rewrite (strcspn_snoc s b f H). cbn [fst snd].
+  rewrite firstn_snoc_le, skipn_snoc_le by apply strcspn_le. reflexivity.
+Qed.
+
+Lemma bar_facts b : is_bar b = true -> is_bar_eq b = true /\ Byte.eqb b x3d = false /\ Byte.eqb b x27 = false /\ Byte.eqb b x5c = false.
+Proof. destruct b; cbv; intros H; try discriminate H; repeat split. Qed.
+
+Lemma unquote_snoc b : is_bar b = true -> forall n q acc t rest, length q <= n ->
+  unquote (q ++ [b]) acc = Some (t, rest) -> exists rest0, rest = rest0 ++ [b] /\ unquote q acc = Some (t, rest0).
+Proof.
+  intros Hb. destruct (bar_facts b Hb) as (_ & _ & Hq & Hs).
+  induction n as [|n IH]; intros q acc t rest Hn H.
+  - destruct q; [|cbn in Hn; lia]. cbn [app unquote] in H. rewrite Hq, Hs in H. discriminate.
+  - destruct q as [|c q].
+    + cbn [app unquote] in H. rewrite Hq, Hs in H. discriminate.
+    + cbn [app unquote] in H |- *. destruct (Byte.eqb c x27).
+      * inversion H; subst. eexists; split; reflexivity.
+      * destruct (Byte.eqb c x5c).
+        -- destruct q as [|d q'].
+           ++ cbn [app] in H. rewrite Hq, Hs in H. discriminate.
+           ++ cbn [app] in H. destruct (Byte.eqb d x27 || Byte.eqb d x5c); [|discriminate].
+              apply IH in H; [exact H|cbn in Hn; lia].
+        -- apply IH in H; [exact H|cbn in Hn; lia].
+Qed.
+
+Lemma segment_snoc b : is_bar b = true -> forall q st rest,
+  segment (q ++ [b]) = Some (st, rest) -> exists rest0, rest = rest0 ++ [b] /\ segment q = Some (st, rest0).
+Proof.
+  intros Hb q st rest. destruct (bar_facts b Hb) as (Hbe & He & Hq & Hs).
+  unfold segment. rewrite (span_snoc q b is_bar_eq Hbe).
+  destruct (span is_bar_eq q) as [name r] eqn:Hsp. cbn [fst snd].
+  destruct name as [|n0 name]; [discriminate|].
+  destruct r as [|c r].
+  - cbn [app]. rewrite He. intros H. inversion H; subst. exists []. split; reflexivity.
+  - cbn [app]. destruct (Byte.eqb c x3d).
+    + destruct r as [|q0 r'].
+      * cbn [app]. rewrite Hq. unfold span. cbn [strcspn]. rewrite Hb. cbn. discriminate.
+      * cbn [app]. destruct (Byte.eqb q0 x27).
+        -- destruct (unquote (r' ++ [b]) []) as [[t rest1]|] eqn:Hu; [|discriminate].
+           intros H. inversion H; subst.
+           destruct (unquote_snoc b Hb (length r') r' [] t rest (le_n _) Hu) as (rest0 & -> & Hu0).
+           rewrite Hu0. exists rest0. split; reflexivity.
+        -- change (q0 :: r' ++ [b]) with ((q0 :: r') ++ [b]). rewrite (span_snoc (q0 :: r') b is_bar Hb).
+           destruct (span is_bar (q0 :: r')) as [t rest1]. cbn [fst snd].
+           destruct t; [discriminate|]. intros H. inversion H; subst. exists rest1. split; reflexivity.
+    + intros H. inversion H; subst. exists (c :: r). split; reflexivity.
+Qed.
+
+Lemma strspn_snoc_cases s b f : f b = true ->
+  (skipn (strspn (s ++ [b]) f) (s ++ [b]) = []) \/
+  (skipn (strspn (s ++ [b]) f) (s ++ [b]) = skipn (strspn s f) s ++ [b]).
+Proof.
+  intros H. induction s as [|c s IH]; cbn [app strspn].
+  - rewrite H. cbn. left. reflexivity.
+  - destruct (f c); [|right; reflexivity]. cbn [skipn]. exact IH.
+Qed.
+
+Theorem segments_trailing_bar b : is_bar b = true -> forall f q, segments f (q ++ [b]) = None.
+Proof.
+  intros Hb. induction f as [|f IH]; intros q; [reflexivity|].
+  cbn [segments]. destruct (segment (q ++ [b])) as [[st rest]|] eqn:Hseg; [|reflexivity].
+  destruct (segment_snoc b Hb q st rest Hseg) as (rest0 & -> & _).
+  destruct rest0 as [|c r0].
+  - cbn [app]. rewrite Hb. cbn [strspn]. rewrite Hb. cbn. reflexivity.
+  - cbn [app]. destruct (is_bar c) eqn:Hc; [|reflexivity].
+    change (c :: r0 ++ [b]) with ((c :: r0) ++ [b]).
+    destruct (strspn_snoc_cases (c :: r0) b is_bar Hb) as [-> | ->]; [reflexivity|].
+    rewrite IH. destruct (skipn (strspn (c :: r0) is_bar) (c :: r0) ++ [b]); reflexivity.
+Qed.
+
+Theorem split_path_trailing_bar b q : is_bar b = true -> split_path (q ++ [b]) = None.
+Proof. intros Hb. unfold split_path. apply segments_trailing_bar. exact Hb. Qed.
+
+Theorem stray_tail_not_found : forall (w : pw) (c : cfg) (b : byte) (p : str), counts_ok c ->
+  is_bar b = true ->
+  rs_opt (getopt_secidx c (p ++ [b]) false) = None /\ snd (cfg_getsec w c (p ++ [b])) = None.
+Proof.
+  intros w c b p Hc H. split.
+  - rewrite (getopt_is_navigation_ok c _ Hc). unfold navigate_opt.
+    rewrite (split_path_trailing_bar b p H). reflexivity.
+  - rewrite (getsec_is_navigation_ok w c _ Hc). unfold navigate_sec.
+    rewrite (split_path_trailing_bar b p H). reflexivity.
+Qed.
